@@ -5,6 +5,7 @@ import (
 	"sort"
 	"strings"
 	"sync"
+	"time"
 )
 
 // Violation is one refutation found by an oracle.
@@ -197,6 +198,8 @@ type Monitor struct {
 	Phase string
 
 	// Puppet mode: one real node, peers played by the harness, requests strictly sequential.
+	start time.Time
+
 	Puppet bool
 	// set once requests overlapped in a puppet case: exact before/after reasoning is off from then on
 	concurrent bool
@@ -204,6 +207,7 @@ type Monitor struct {
 
 func New() *Monitor {
 	return &Monitor{
+		start:        time.Now(),
 		Nodes:        map[string]*NodeSh{},
 		Counts:       map[string]int{},
 		violSeen:     map[string]bool{},
@@ -256,6 +260,7 @@ func (m *Monitor) Emit(ev Event) uint64 {
 	defer m.mu.Unlock()
 	m.seq++
 	ev.Seq = m.seq
+	ev.W = int64(time.Since(m.start))
 	m.feed(&ev)
 	return ev.Seq
 }
